@@ -94,7 +94,7 @@ Var Xdl::read(const String& file)
 		if (n < buffer.length() - 1)
 			break;
 	}
-	parser.parse(" ");
+	parser.parse("\n"); // ends a pending token and a line comment that runs to the end of the file
 	return parser.value();
 }
 
@@ -662,7 +662,7 @@ Var XdlParser::value() const
 Var XdlParser::decode(const char* s)
 {
 	parse(s);
-	parse(" ");
+	parse("\n"); // ends a pending token and a line comment that runs to the end of the text
 	return value();
 }
 
